@@ -2,7 +2,13 @@
    S-expression, prints the block list of Model.Lift.lift (desugar u) in the
    form of harness/src/bin/lift.rs, or (mode walk) the decision trees of
    Spec.CfgSpec.trace_tree / walk_tree.
-     (L id) (R id) (A id) (N s..) (B s..) (W c s) (I c s) (E c s s) (F init c step body) *)
+     (L id) (R id) (A id) (N s..) (B s..) (W c s) (I c s) (E c s s) (F init c step body)
+   C13 (mode forms): a compound leaf may carry its surface statement,
+     (A id (Op <opcode> <target> <expr>)) | (A id (Inc <target>)) | (A id (Dec <target>))
+     target = (V name index..), expr = (N n) | (V name index..) | (<opcode> expr expr);
+   printed: for every such leaf `id=<plain assignment>` by
+   Spec.SurfaceSpec.expected_statement, then ` # `, then the same by the mirror
+   Model.Shortcuts.parse_substitution, in the form of harness/src/bin/lift.rs. *)
 open Datatypes
 open Base
 open Drvlib
@@ -40,7 +46,7 @@ let rec usk_of (x : sx) : usk =
   match x with
   | Node [Atom "L"; i] -> ULeaf (num i, false)
   | Node [Atom "R"; i] -> ULeaf (num i, true)
-  | Node [Atom "A"; i] -> UCompound (num i)
+  | Node (Atom "A" :: i :: _) -> UCompound (num i)   (* (A id) or (A id <surface statement>) *)
   | Node (Atom "N" :: ss) -> UInit (Stdlib.List.map usk_of ss)
   | Node (Atom "B" :: ss) -> UBlock (Stdlib.List.map usk_of ss)
   | Node [Atom "W"; c; b] -> UWhile (num c, usk_of b)
@@ -91,8 +97,60 @@ let walk_line n line =
     | _ -> "nolift" in
   Printf.sprintf "T %s # W %s" t w
 
+(* ---- C13: compound assignments ---- *)
+let ops = Shortcuts.[ "Mul", Mul; "Div", Div; "Add", Add; "Sub", Sub; "Pow", Pow; "IntDiv", IntDiv; "Mod", Mod;
+                      "ShiftL", ShiftL; "ShiftR", ShiftR; "BitAnd", BitAnd; "BitOr", BitOr; "BitXor", BitXor ]
+let op_of a = try Stdlib.List.assoc a ops with Not_found -> failwith "sx: bad opcode"
+let name_of_op o = fst (Stdlib.List.find (fun (_, o') -> o' = o) ops)
+
+let rec ex_of (x : sx) : string Shortcuts.ex =
+  match x with
+  | Node [Atom "N"; n] -> Shortcuts.ENum (num n)
+  | Node (Atom "V" :: Atom name :: idx) -> Shortcuts.EVar (name, Stdlib.List.map ex_of idx)
+  | Node [Atom o; l; r] -> Shortcuts.EInfix (op_of o, ex_of l, ex_of r)
+  | _ -> failwith "sx: bad expression"
+
+let target_of (x : sx) =
+  match ex_of x with Shortcuts.EVar (name, idx) -> (name, idx) | _ -> failwith "sx: bad target"
+
+let cstmt_of (x : sx) : string Shortcuts.cstmt =
+  match x with
+  | Node [Atom "Op"; Atom o; t; e] -> let (n, idx) = target_of t in Shortcuts.COpAssign (op_of o, n, idx, ex_of e)
+  | Node [Atom "Inc"; t] -> let (n, idx) = target_of t in Shortcuts.CInc (n, idx)
+  | Node [Atom "Dec"; t] -> let (n, idx) = target_of t in Shortcuts.CDec (n, idx)
+  | Node [Atom "Set"; t; e] -> let (n, idx) = target_of t in Shortcuts.CAssign (n, idx, ex_of e)
+  | _ -> failwith "sx: bad surface statement"
+
+let rec show_ex (e : string Shortcuts.ex) =
+  match e with
+  | Shortcuts.ENum n -> Printf.sprintf "(N %d)" (int_of_nat n)
+  | Shortcuts.EVar (x, idx) -> show_var x idx
+  | Shortcuts.EInfix (o, l, r) -> Printf.sprintf "(%s %s %s)" (name_of_op o) (show_ex l) (show_ex r)
+and show_var x idx =
+  Printf.sprintf "(V %s%s)" x (Stdlib.String.concat "" (Stdlib.List.map (fun e -> " " ^ show_ex e) idx))
+
+let show_cstmt (s : string Shortcuts.cstmt) =
+  match s with
+  | Shortcuts.CAssign (x, idx, e) -> Printf.sprintf "(= %s %s)" (show_var x idx) (show_ex e)
+  | Shortcuts.COpAssign (o, x, idx, e) -> Printf.sprintf "(%s= %s %s)" (name_of_op o) (show_var x idx) (show_ex e)
+  | Shortcuts.CInc (x, idx) -> Printf.sprintf "(++ %s)" (show_var x idx)
+  | Shortcuts.CDec (x, idx) -> Printf.sprintf "(-- %s)" (show_var x idx)
+
+(* the compound leaves that carry a surface statement, in text order *)
+let rec compounds (x : sx) : (string * sx) list =
+  match x with
+  | Node [Atom "A"; Atom i; st] -> [ (i, st) ]
+  | Node items -> Stdlib.List.concat_map compounds items
+  | Atom _ -> []
+
+let forms_line line =
+  let cs = Stdlib.List.map (fun (i, st) -> (i, cstmt_of st)) (compounds (parse_sx line)) in
+  let show f = Stdlib.String.concat "|" (Stdlib.List.map (fun (i, s) -> i ^ "=" ^ show_cstmt (f s)) cs) in
+  Printf.sprintf "forms %s # %s" (show SurfaceSpec.expected_statement) (show Shortcuts.parse_substitution)
+
 let () =
   match Array.to_list Sys.argv with
+  | _ :: "forms" :: _ -> each_line forms_line
   | _ :: "cfg" :: _ -> each_line cfg_line
   | _ :: "walk" :: n :: _ -> each_line (walk_line (int_of_string n))
-  | _ -> prerr_endline "usage: model_lift cfg | walk <n>"; exit 2
+  | _ -> prerr_endline "usage: model_lift cfg | walk <n> | forms"; exit 2
